@@ -218,7 +218,7 @@ def run_case(case):
             rr = r[trial] + trial
             perm = list(itertools.permutations(dims))[rr % len(list(itertools.permutations(dims)))]
             order = list(perm)
-            dropped = [d for d in order if len(lab_of[d]) == 1 and (rr >> 3) % 3 == 0]
+            dropped = [d for k_, d in enumerate(order) if len(lab_of[d]) == 1 and (rr >> (3 + k_)) % 2 == 0]
             order = [d for d in order if d not in dropped]
             if (rr >> 5) % 3 == 0:
                 order.insert((rr >> 7) % (len(order) + 1), "+n")
